@@ -34,6 +34,7 @@ static bool check_split(RS& rs, uint64_t offset, uint64_t length, LenAt len_at, 
     if (!(abo <= offset && offset - abo < len_at(rs.abegin))) FAIL("aligned begin offset slack");
     if (!(aeo >= end)) FAIL("aligned end offset below end");
     if (rs.end_remainder && !(aeo - end < len_at(rs.apend))) FAIL("aligned end offset slack");
+    if (!rs.end_remainder && aeo != end) FAIL("aligned end offset of a range that ends on a block boundary is not its end");
     // classification vs list
     uint64_t m = 0, lo = rs.abegin + (rs.begin_remainder != 0), hi = rs.apend;
     for (auto& x : rs.aligned_parts()) {
